@@ -2,7 +2,7 @@ SPEC = {
     'id': 'C38',
     'harness': 'hC38',
     'coq_dir': 'C38',
-    'claimed': False,
+    'claimed': True,
     'theorems': [
         'C38_mutex_exclusive', 'C38_no_secret_while_locked', 'C38_setpasswd_leaves_flag',
         'C38_observed_unlocked_implies_unlock_before', 'C38_secret_implies_unlock_before',
